@@ -22,6 +22,12 @@ type FileCase struct {
 	Params   progen.FileParams `json:"params"`
 	Schedule Schedule          `json:"schedule"`
 	Program  string            `json:"program_mro,omitempty"`
+	// CrashAt > 0: mrp is killed at that file-system effect and restarted.
+	CrashAt int `json:"crash_at,omitempty"`
+	// KeptExpect: file leaves named by the top-level output of the
+	// uninterrupted run (crash cases only; -1 unknown).
+	KeptExpect int `json:"kept_expect,omitempty"`
+	keptExpect int
 }
 
 func pathsIn(v *progen.Val, out []string) []string {
@@ -94,6 +100,10 @@ func producerVolatile(d progen.FileParams) string {
 	}
 }
 
+// keptExpect, when >= 0, is the number of file leaves the top-level output
+// names in the uninterrupted run of the same program (crash-restart phase).
+var keptExpect = -1
+
 func fileOracle(prop string, d progen.FileParams, res *Result) []string {
 	var out []string
 	if res.Err != "" {
@@ -128,6 +138,8 @@ func fileOracle(prop string, d progen.FileParams, res *Result) []string {
 		if d.TopOut {
 			if len(keptPaths) == 0 {
 				out = append(out, "the top-level output 'kept' names no file: "+res.TopOutsText)
+			} else if keptExpect >= 0 && len(keptPaths) != keptExpect {
+				out = append(out, fmt.Sprintf("the top-level output 'kept' names %d file(s), the uninterrupted run names %d: %s", len(keptPaths), keptExpect, res.TopOutsText))
 			}
 			for _, p := range keptPaths {
 				if msg := CheckFileIntact(p); msg != "" {
@@ -280,6 +292,66 @@ func evalFile(prop string, c FileCase) (viol []string, res *Result, note string)
 	}
 	run := func() (*Result, []string) {
 		var v []string
+		if c.CrashAt > 0 {
+			c.keptExpect = -1
+			if c.KeptExpect > 0 {
+				c.keptExpect = c.KeptExpect
+			}
+			// interruption at effect CrashAt, stale lock removed, restart;
+			// the oracle looks at the restarted run (accounting across a
+			// kill is not decided: the report of the dead process is lost)
+			dir, err := os.MkdirTemp("/dev/shm", "psxf-")
+			if err != nil {
+				return &Result{Err: err.Error()}, nil
+			}
+			defer os.RemoveAll(dir)
+			inc1 := Run(p, Schedule{}, Options{VdrMode: c.Params.Mode, MrpPid: 6161, PsDir: dir, CrashAt: c.CrashAt})
+			if strings.HasPrefix(inc1.Err, "invoke:") || !inc1.Crashed {
+				inc1.Err = "invoke: no crash"
+				return inc1, nil
+			}
+			os.Remove(filepath.Join(dir, "ps", "_lock"))
+			r := Run(p, Schedule{}, Options{VdrMode: c.Params.Mode, MrpPid: 6262, PsDir: dir, Resume: true, Inspect: func(r *Result) {
+				if r.Err != "" && strings.Contains(r.Err, "_timestamp") || strings.HasPrefix(r.Err, "invoke:") {
+					// killed while the pipestance was being created (C05's known finding)
+					r.Err = "invoke: restart refused during creation"
+					return
+				}
+				r.VdrReport = nil
+				keptExpect = c.keptExpect
+				defer func() { keptExpect = -1 }()
+				r.FileProblems = append(append([]string{}, inc1.FileProblems...), r.FileProblems...)
+				r.OutsideEffects = append(append([]string{}, inc1.OutsideEffects...), r.OutsideEffects...)
+				v = fileOracle(prop, c.Params, r)
+				if os.Getenv("VERIF_DEBUG") != "" {
+					for _, e := range inc1.EffectLog[max(0, len(inc1.EffectLog)-400):] {
+						r.DebugNotes = append(r.DebugNotes, "inc1: "+e)
+					}
+					for _, e := range r.EffectLog {
+						r.DebugNotes = append(r.DebugNotes, "inc2: "+e)
+					}
+					r.DebugNotes = append(r.DebugNotes, "outs after restart: "+r.TopOutsText)
+					r.DebugNotes = append(r.DebugNotes, "outs before post-processing: "+r.TopOutsPre)
+					filepath.Walk(filepath.Join(dir, "ps", "TOP", "FILEW"), func(p string, info os.FileInfo, err error) error {
+						if err == nil {
+							r.DebugNotes = append(r.DebugNotes, "tree: "+strings.TrimPrefix(p, dir)+" "+info.Mode().String())
+						}
+						return nil
+					})
+				}
+				if n := len(inc1.EffectLog); n > 0 {
+					r.DebugNotes = append(r.DebugNotes, "died at "+inc1.EffectLog[n-1])
+				}
+			}})
+			if strings.HasPrefix(r.Err, "invoke:") {
+				return r, nil
+			}
+			for i := range v {
+				v[i] = strings.ReplaceAll(v[i], dir, "<scratch>")
+			}
+			r.Dir = dir
+			return r, v
+		}
 		r := Run(p, c.Schedule, Options{VdrMode: c.Params.Mode, MrpPid: 6161, SymlinkParent: c.Params.Phys, Inspect: func(r *Result) {
 			if !strings.HasPrefix(r.Err, "invoke:") {
 				v = fileOracle(prop, c.Params, r)
@@ -363,7 +435,8 @@ func FileCheck(prop string) {
 			"mapped consumer; mapped producer; a second late consumer; retain at stage or pipeline; file returned by the top-level pipeline) x all volatile annotations {call volatile, none, stage strict, stage false} "+
 			"x all VDR modes {rolling, post, strict}; each program runs on the real runtime with model jobs that write real files and verify every file named in their arguments; "+
 			"schedules: default for all; for the vectors with at most %d dimensions off base additionally each job held until quiescence, each job start-only, each VDR goroutine (doJoin/doComplete) deferred by 0, 1 or 3 loop iterations. "+
-			"distinct = distinct (program, schedule); non-trivial = VDR removed at least one path", maxDev, maxDev-1)
+			"In addition, for %d shapes (file / file array x plain / split producer x rolling / strict x late second consumer x top-level output) mrp is killed at EVERY file-system effect of the run (VDR's own removals and reports included), the stale lock is removed and the pipestance restarted: consumers must still find their files, final outputs and retained files must be intact (C04), and what may be reclaimed is reclaimed with every path listed in a kill report gone (C14; byte accounting across a kill is not decided). "+
+			"distinct = distinct (program, schedule / crash point); non-trivial = VDR removed at least one path", maxDev, maxDev-1, len(progen.FileCrashShapes(r.Thorough())))
 		r.Set("programs_in_family", len(fam))
 		r.RunWorkers(0)
 		r.Assume("VDR goroutine bodies are atomic with respect to the scheduler loop (they are deferred as a whole, not interleaved statement by statement); a free-running -race pass is separate")
@@ -468,6 +541,66 @@ func FileCheck(prop string) {
 			}
 			r.Outcome("ok-dev")
 		}
+	}
+	// interruption and restart with VDR at work: for the crash shapes, mrp is
+	// killed at EVERY file-system effect and restarted
+	shapes := progen.FileCrashShapes(r.Thorough())
+	type citem struct {
+		d    progen.FileParams
+		n    int
+		kept int
+	}
+	var citems []citem
+	for _, d := range shapes {
+		p := progen.FileFlow(d)
+		if p == nil {
+			continue
+		}
+		base := Run(p, Schedule{}, Options{VdrMode: d.Mode, MrpPid: 6161})
+		if base.Err != "" || base.State != "complete" {
+			continue
+		}
+		kept := 0
+		if base.TopOuts != nil && base.TopOuts.K == progen.VObj {
+			kept = len(pathsIn(base.TopOuts.O["kept"], nil))
+		}
+		for n := 1; n <= base.Effects; n++ {
+			citems = append(citems, citem{d, n, kept})
+		}
+	}
+	for wi := range citems {
+		if !r.Mine(wi) {
+			continue
+		}
+		if r.Expired("crash point enumeration") {
+			break
+		}
+		it := citems[wi]
+		c := FileCase{Params: it.d, CrashAt: it.n, KeptExpect: it.kept}
+		viol, res, note := evalFile(prop, c)
+		if note != "" {
+			r.Eval("")
+			r.Outcome("crash-" + strings.SplitN(note, ":", 2)[0])
+			if strings.HasPrefix(note, "nonreproducible") {
+				r.Inconclusive(fmt.Sprintf("%s crash at %d: %s", it.d.String(), it.n, note))
+			}
+			continue
+		}
+		r.Eval(fmt.Sprintf("%s|crash@%d", it.d.String(), it.n))
+		r.Add("crash_restart_runs", 1)
+		if len(viol) > 0 {
+			r.Outcome("violation")
+			c.Program = progen.FileFlow(c.Params).MRO()
+			died := ""
+			if res != nil && len(res.DebugNotes) > 0 {
+				died = " (" + res.DebugNotes[len(res.DebugNotes)-1] + ")"
+			}
+			for _, v := range viol {
+				r.Report(ev.Finding{Sig: fileSig(prop, "after-restart: "+v), What: fmt.Sprintf("%s killed at effect %d%s and restarted: %s", it.d.String(), it.n, died, v), Case: c})
+			}
+			continue
+		}
+		r.Outcome("crash-restart-ok")
 	}
 	r.Done()
 }
